@@ -27,7 +27,7 @@ RULE = (
     "computed before the history starts, and equal to the reference encoding). (1) Histories: Hypothesis "
     "RuleBasedStateMachine over a drawn pool of 4-8 classes (always a flexible request header, a class with tagged "
     "fields and two versions of one API whose classes share names) x 1-3 values; rules: create reader/writer (cold or "
-    "warm, cache_clear is a rule; every pool also holds two versions of one same-named tag-bearing class in a drawn order), encode, decode, decode a truncated prefix, encode an invalid value (wrong-typed "
+    "warm, cache_clear is a rule; every pool also holds two versions of one same-named tag-bearing class in a drawn order), encode, decode, decode a truncated prefix, decode the pristine bytes with one byte overwritten (usually the last byte of a value, with a UTF-8 lead byte), encode an invalid value (wrong-typed "
     "field so the writer fails part-way), encode an EQUAL TWIN of a pool value (one numeric leaf replaced by an equal value of another type, or 0.0 by -0.0: outcome must equal the cold-cache outcome recorded when the value entered the pool), encode/decode through a stream that raises at call k; invariant after every "
     "step: every pool value still encodes/decodes to its pristine result through the currently cached closures, and "
     "injected exceptions propagate unchanged. (2) Fault positions: for each (class, value) pair ALL k in [0, W) write "
@@ -274,6 +274,31 @@ class Executor:
         else:
             raise Violation("history:truncated-accepted", f"{it.cd.path}: prefix {k} decoded")
 
+    def op_corrupt(self, i: int, sel: int, byte: int):
+        """Decode the pristine bytes with ONE byte overwritten - preferably the last byte of a string/bytes value, with a
+        UTF-8 lead byte, so that a well-framed string ends in the middle of a character.  Whatever this call does (raise,
+        or return something), the calls that follow must not be affected by it."""
+        from ..refcodec import OffsetMap, canonicalize
+
+        i %= len(self.items)
+        it = self.items[i]
+        if not it.pristine:
+            return
+        om = OffsetMap()
+        ref_encode(it.cd, canonicalize(it.cd, tree_from_json(it.tree_json)), om)
+        values = [sp for sp in om.spans if sp[3] == "value" and sp[1] <= len(it.pristine)]
+        if values and sel % 4:
+            s0, e0, _p, _r = values[(sel // 4) % len(values)]
+            pos = e0 - 1
+        else:
+            pos = sel % len(it.pristine)
+        data = bytearray(it.pristine)
+        data[pos] = [0xC3, 0xE2, 0xF0, 0xFF, 0x80, 0x00][byte % 6]
+        try:
+            self._reader(it)(io.BytesIO(bytes(data)))
+        except Exception:
+            self._had_failure_on.add(("r", i))
+
     def op_invalid(self, i: int, sel: int, kind: int):
         """Encode a value with one wrong-typed field somewhere (possibly deep inside), so the writer fails part-way."""
         i %= len(self.items)
@@ -466,6 +491,10 @@ class HistoryMachine(RuleBasedStateMachine):
     @rule(i=st.integers(0, 63), sel=st.integers(0, 63), kind=st.integers(0, 3))
     def invalid(self, i, sel, kind):
         self._do(["invalid", i, sel, kind])
+
+    @rule(i=st.integers(0, 63), sel=st.integers(0, 10**6), byte=st.integers(0, 5))
+    def corrupt(self, i, sel, byte):
+        self._do(["corrupt", i, sel, byte])
 
     @rule(i=st.integers(0, 63), sel=st.integers(0, 63))
     def twin(self, i, sel):
